@@ -151,6 +151,11 @@ impl Identifier {
     tke = U.file('crates/oq3_syntax/src/ast/token_ext.rs')
     for fc in (n, e, tf, tke):
         U.n_pinned += fc.guard_rest('hand-written AST accessor outside the verified set: opaque to the analyser model; text pinned')
+    # generated/nodes.rs, generated/tokens.rs (sourcegen output: `support::child / children / token` one-liners, casts by kind): the
+    # units see these accessors as opaque functions of the node; the files are pinned as a whole
+    g.guard_file('generated typed-AST accessors (support::child / children / token one-liners; casts by kind): opaque to the units, pinned as a whole')
+    U.file('crates/oq3_syntax/src/ast/generated/tokens.rs').guard_file('generated token types (casts by kind): opaque to the units, pinned as a whole')
+    U.n_pinned += 2
     U.assumed_parser = ['IF_STMT children: condition expression (not a block), then-body, optional else-body (if_shape)',
                         'WHILE_STMT children: condition expression (not a block), body (while_shape)',
                         'FOR_STMT children: type, loop variable, iterable, body (for_shape)',
